@@ -67,7 +67,12 @@ pub fn current_opts_json() -> Value {
 /// A check that re-configures a writer behind `make_writer`'s back (public fields, setters) calls this:
 /// the noted options no longer describe the writer, so its dumps are not judged.
 pub fn forget_writer() {
-    CUR.with(|c| *c.borrow_mut() = None);
+    // keep the entry (option-independent oracles still judge the writer's dumps) but mark it used
+    CUR.with(|c| {
+        if let Some((_, _, n)) = c.borrow_mut().as_mut() {
+            *n = n.saturating_add(1000);
+        }
+    });
 }
 
 pub fn note_writer(pid: i32, o: &DumpOpts) {
@@ -89,7 +94,9 @@ fn judge_now(bytes: &[u8]) {
         match b.as_mut() {
             Some((pid, o, n)) => {
                 *n += 1;
-                if *n == 1 {
+                // oracles that do not look at the options (the fault-tolerant ones: structure, soft-error
+                // laws) judge every dump of a writer, also the later ones of a re-used / re-configured writer
+                if *n == 1 || tolerant {
                     Some((*pid, o.clone()))
                 } else {
                     None
@@ -117,7 +124,9 @@ pub fn after_dump(r: &DumpResult) {
     if ORACLE.read().unwrap_or_else(|e| e.into_inner()).is_none() {
         return;
     }
-    if let (DumpResult::Panic(m), true) = (r, WATCH_PANICS.load(Ordering::Relaxed)) {
+    // (a panic raised by the harness's own fault-injecting destination, as in C03's "destination panics"
+    // schedules, is the injected fault itself, not a panic of the writer)
+    if let (DumpResult::Panic(m), true) = (r, WATCH_PANICS.load(Ordering::Relaxed) && !matches!(r, DumpResult::Panic(m) if m.contains("mdv/src/"))) {
         let host = HOST.read().unwrap_or_else(|e| e.into_inner()).clone();
         let opts = CUR.with(|c| c.borrow().as_ref().map(|(_, o, _)| o.to_json())).unwrap_or(Value::Null);
         let loc = m.split("panicked at ").nth(1).unwrap_or(m).split(':').take(2).collect::<Vec<_>>().join(":");
@@ -393,10 +402,11 @@ pub fn c06(pid: i32, o: &DumpOpts, bytes: &[u8]) -> Vec<(String, String)> {
             j += 1;
             ends.push(maps[j].end);
         }
-        let shortened = !ends.contains(&(start + len));
+        // shortened = anything less than [page of sp, end of the mapping): cut at the end or at the front
+        let shortened = !ends.contains(&(start + len)) || start != sp & !0xfff;
         if shortened {
             if o.size_limit.is_none() {
-                fails.push(("shortened-without-limit".into(), format!("{tag}: region ends at {:#x}, which is not the end of a mapping", start + len)));
+                fails.push(("shortened-without-limit".into(), format!("{tag}: region [{start:#x}, {:#x}) is neither the whole of [page of sp, end of the mapping) nor allowed to be shorter (no size limit)", start + len)));
             } else if pos < 20 {
                 fails.push(("base-thread-shortened".into(), format!("{tag}: one of the first 20 threads was shortened")));
             } else if Some(th.tid) == crash_tid {
@@ -404,8 +414,6 @@ pub fn c06(pid: i32, o: &DumpOpts, bytes: &[u8]) -> Vec<(String, String)> {
             } else if len > 2048 {
                 fails.push(("shortened-to-more-than-2k".into(), format!("{tag}: shortened to {len} bytes")));
             }
-        } else if start != sp & !0xfff {
-            fails.push(("not-page-of-sp".into(), format!("{tag}: unshortened region starts at {start:#x}, the page of sp is {:#x}", sp & !0xfff)));
         }
         if !o.sanitize {
             if let (Some(got), Some(want)) = (d.loc_bytes(bytes, &th.stack), read_target(pid, sp, (start + len - sp) as usize)) {
